@@ -75,7 +75,7 @@ fn small_mark(rng: &mut Rng) -> MarkSpec {
 fn scenarios(tier: Tier, seed: u64) -> Vec<CaseSpec> {
     let mut v: Vec<CaseSpec> = vec![];
     let thorough = tier.is_thorough();
-    let budget = tier.pick(1_500_000usize, 6_000_000);
+    let budget = tier.pick(3_000_000usize, 12_000_000);
     let mut rng = Rng::derive(seed, "c16-scenarios", 0);
     let mut push = |v: &mut Vec<CaseSpec>, kind: &str, lookups: Vec<LookupSpec>, rng: &mut Rng| {
         let index = v.len();
@@ -88,9 +88,8 @@ fn scenarios(tier: Tier, seed: u64) -> Vec<CaseSpec> {
         });
     };
     // scale of the heavy cases: multiples of the 64 KiB limit
-    let rounds = tier.pick(1usize, 4);
-    for round in 0..rounds {
-        let k = if thorough { 1 + round } else { 1 }; // size multiplier
+    let ks: &[usize] = if thorough { &[1, 2, 3, 4, 6, 8, 1, 2, 3, 4, 5, 6, 1, 2, 2, 3] } else { &[1, 1, 2, 2, 3, 4] };
+    for &k in ks {
         // ---- PairPos format 1 needs splitting
         for (shape, n_tp, dev_mode, dev_pct) in [(1u8, 1usize, 0u8, 0u64), (0, 1, 0, 0), (2, 3, 0, 0), (1, 2, 2, 25), (0, 1, 4, 15), (2, 1, 1, 50)] {
             let n_first = (150 + rng.usize(250)) * k;
@@ -107,7 +106,7 @@ fn scenarios(tier: Tier, seed: u64) -> Vec<CaseSpec> {
         for (dev_mode, dev_pct, n_groups) in [(0u8, 0u64, 1usize), (0, 0, 2), (1, 40, 1), (4, 20, 1), (5, 30, 2), (0, 0, 1)] {
             let groups = (0..n_groups)
                 .map(|_| {
-                    let n1 = (60 + rng.usize(100)) * k.min(2);
+                    let n1 = (60 + rng.usize(100)) * k.min(3);
                     let n2 = 60 + rng.usize(100) * k.min(2);
                     let (g1, g2) = (1 + rng.usize(4), 1 + rng.usize(4));
                     let d = *rng.pick(&[35u64, 70, 100]);
@@ -214,7 +213,7 @@ fn scenarios(tier: Tier, seed: u64) -> Vec<CaseSpec> {
         }
     }
     // ---- medium cases that fit without any graph surgery
-    for _ in 0..tier.pick(24, 120) {
+    for _ in 0..tier.pick(320, 3000) {
         let mut lookups = vec![];
         for _ in 0..1 + rng.usize(2) {
             if rng.chance(1, 3) {
@@ -232,7 +231,7 @@ fn scenarios(tier: Tier, seed: u64) -> Vec<CaseSpec> {
         push(&mut v, "medium", lookups, &mut rng);
     }
     // ---- many small cases: builder grouping policy, precedence, duplicates
-    for _ in 0..tier.pick(400, 4000) {
+    for _ in 0..tier.pick(6000, 60000) {
         let mut lookups = vec![];
         for _ in 0..1 + rng.usize(3) {
             if rng.chance(1, 3) {
